@@ -6,6 +6,7 @@ import (
 	"fmt"
 	"runtime/debug"
 	"sync"
+	"time"
 
 	raft "go.etcd.io/raft/v3"
 	pb "go.etcd.io/raft/v3/raftpb"
@@ -171,7 +172,7 @@ func startNodeDriver(cfg *raft.Config, peers []raft.Peer) (*nodeDriver, error) {
 // the run loop is re-raised here, in the driver's goroutine.
 func (d *nodeDriver) awaitLoopTop() {
 	for {
-		ev := <-d.events
+		ev := d.nextEvent()
 		switch {
 		case ev.who == 2:
 			d.dead = true
@@ -181,10 +182,82 @@ func (d *nodeDriver) awaitLoopTop() {
 			d.propOpen, d.readyArmed, d.advanceArmed = ev.a, ev.b, ev.c
 			return
 		case ev.who == 0 && ev.point == raft.VerifLoopProposalStepped:
-			d.relLoop <- struct{}{}
+			d.release(d.relLoop)
 		default:
 			panic(fmt.Sprintf("nodesim: unexpected event %+v while waiting for the run loop", ev))
 		}
+	}
+}
+
+// handOffLimit bounds one goroutine hand-off in wall-clock time (they take
+// microseconds): a hand-off nobody ever takes means that the code under check
+// does not come back to a scheduling point, and the run is abandoned. The
+// limit is never reached on a tree on which the hand-offs complete, so it
+// cannot influence an execution.
+const handOffLimit = 45 * time.Second
+
+// nextEvent waits for the next park of the run loop or of a proposer. If the
+// per-run wall-clock limit has been exceeded (the code under check does not
+// come back to a scheduling point) the run is abandoned.
+func (d *nodeDriver) nextEvent() drvEvent {
+	select {
+	case ev := <-d.events:
+		return ev
+	case <-currentAbort():
+		d.dead = true
+		d.forget()
+		panic(runAbandoned{})
+	case <-time.After(handOffLimit):
+		d.dead = true
+		d.forget()
+		panic(runAbandoned{})
+	}
+}
+
+// handOff performs one blocking channel operation of the Node API, giving up
+// like nextEvent if nobody ever takes it.
+func (d *nodeDriver) handOff(f func()) {
+	done := make(chan struct{})
+	go func() { f(); close(done) }()
+	select {
+	case <-done:
+	case <-currentAbort():
+		d.dead = true
+		d.forget()
+		panic(runAbandoned{})
+	case <-time.After(handOffLimit):
+		d.dead = true
+		d.forget()
+		panic(runAbandoned{})
+	}
+}
+
+func (d *nodeDriver) awaitErr(ch chan error) error {
+	select {
+	case err := <-ch:
+		return err
+	case <-currentAbort():
+		d.dead = true
+		d.forget()
+		panic(runAbandoned{})
+	case <-time.After(handOffLimit):
+		d.dead = true
+		d.forget()
+		panic(runAbandoned{})
+	}
+}
+
+func (d *nodeDriver) release(ch chan struct{}) {
+	select {
+	case ch <- struct{}{}:
+	case <-currentAbort():
+		d.dead = true
+		d.forget()
+		panic(runAbandoned{})
+	case <-time.After(handOffLimit):
+		d.dead = true
+		d.forget()
+		panic(runAbandoned{})
 	}
 }
 
@@ -194,8 +267,8 @@ func (d *nodeDriver) serve(f func()) {
 	if d.dead {
 		return
 	}
-	d.relLoop <- struct{}{}
-	f()
+	d.release(d.relLoop)
+	d.handOff(f)
 	d.awaitLoopTop()
 }
 
@@ -254,12 +327,12 @@ func (d *nodeDriver) Propose(data []byte) error {
 	defer cancel()
 	done := make(chan error, 1)
 	go func() { done <- d.node.Propose(ctx, data) }()
-	d.relLoop <- struct{}{}
+	d.release(d.relLoop)
 	// Two parks are expected, in either order: the proposer after the
 	// hand-over, the run loop after stepping the proposal.
 	var loopStepped, propHanded bool
 	for !(loopStepped && propHanded) {
-		ev := <-d.events
+		ev := d.nextEvent()
 		switch {
 		case ev.who == 2:
 			d.dead = true
@@ -276,9 +349,9 @@ func (d *nodeDriver) Propose(data []byte) error {
 	if cancelIt {
 		// The proposer's context ends before the outcome is posted.
 		cancel()
-		d.relProp <- struct{}{}
-		err := <-done
-		d.relLoop <- struct{}{}
+		d.release(d.relProp)
+		err := d.awaitErr(done)
+		d.release(d.relLoop)
 		d.awaitLoopTop()
 		d.cancelled++
 		if err == nil || errors.Is(err, raft.ErrProposalDropped) {
@@ -287,10 +360,10 @@ func (d *nodeDriver) Propose(data []byte) error {
 		}
 		return errIndeterminate
 	}
-	d.relLoop <- struct{}{}
+	d.release(d.relLoop)
 	d.awaitLoopTop()
-	d.relProp <- struct{}{}
-	return <-done
+	d.release(d.relProp)
+	return d.awaitErr(done)
 }
 
 func (d *nodeDriver) ProposeConfChange(cc pb.ConfChangeI) error {
@@ -369,9 +442,18 @@ func (d *nodeDriver) stop() {
 		return
 	}
 	d.dead = true
-	d.relLoop <- struct{}{}
-	d.node.Stop()
-	d.forget()
+	defer func() {
+		// a run loop that never comes back is left behind (the run is being
+		// abandoned anyway)
+		if r := recover(); r != nil {
+			if _, ok := r.(runAbandoned); !ok {
+				panic(r)
+			}
+		}
+		d.forget()
+	}()
+	d.release(d.relLoop)
+	d.handOff(func() { d.node.Stop() })
 }
 
 func (d *nodeDriver) forget() {
